@@ -147,8 +147,8 @@ Theorem wheel_reset_same :
   forall o s rest ti x,
     let d := fst (wh_eff_duration (wh_s s) ti (WReset x)) in
     let th op := {| wh_rpc_of := WRIdle; wh_todo := op :: rest; wh_tint := ti |} in
-    wh_rpc_of (fst (wh_req_step_th o s (th (WReset x)))) = wh_rpc_of (fst (wh_req_step_th o s (th (WNew d)))) /\
-    snd (wh_req_step_th o s (th (WReset x))) = snd (wh_req_step_th o s (th (WNew d))) /\
+    wh_rpc_of (fst (wh_req_step_th o s (th (WReset x)))) = wh_rpc_of (fst (wh_req_step_th o s (th (WhNew d)))) /\
+    snd (wh_req_step_th o s (th (WReset x))) = snd (wh_req_step_th o s (th (WhNew d))) /\
     wh_tint (fst (wh_req_step_th o s (th (WReset x)))) = ti /\
     (d = match x with Some v => if (wh_s s <=? v)%Z then v else ti | None => ti end).
 Proof. exact wh_reset_same. Qed.
@@ -158,7 +158,7 @@ Print Assumptions wheel_reset_same.
    advances, no re-validation) a request that reads between the two stores fires a whole
    revolution late: n = 4, d = 0, k0 = 0, k1 = 1 -> allowed ticks 1..2, fires at tick 5 *)
 Theorem wheel_orig_refuted :
-  let s0 := wh_init 3600000000000 4 5 [[WNew 0%Z]] in
+  let s0 := wh_init 3600000000000 4 5 [[WhNew 0%Z]] in
   let sched := [0;0;0;0; 1;1;1; 0;0; 0;0;0;0;0;0; 0;0;0;0;0;0; 0;0;0;0;0;0; 0;0;0;0;0;0] in
   In (1, WERet 0 0 1 4) (wh_trace WOrig s0 sched) /\
   wh_closed_at (wh_final WOrig s0 sched) 4 = Some 5 /\ 5 > 1 + 0 + 1.
@@ -169,7 +169,7 @@ Print Assumptions wheel_orig_refuted.
    tick advanced position between its two loads, and a request for 2 steps (index 1) that
    overlaps a tick; both windows are met, tick 1 and 2 completed *)
 Example c03_nonvacuous :
-  let s0 := wh_init 3600000000000 3 3 [[WNew 3600000000000%Z]; [WAfter 7200000000000%Z]] in
+  let s0 := wh_init 3600000000000 3 3 [[WhNew 3600000000000%Z]; [WAfter 7200000000000%Z]] in
   let sched := [1;1;1; 0;0;0;0; 1;1;1;1; 2;2; 0;0; 2;2; 0;0;0;0;0;0] in
   wh_cfg_ok 3600000000000 3 /\
   nth_error (wh_trace WFixed s0 sched) 10 = Some (1, WERet 0 0 1 1) /\
